@@ -248,14 +248,18 @@ def all_latin1(s):
 BOUNDS = {"quick": {"v": 1, "bd": 2, "shapes": 12, "jshapes": 6},
           "thorough": {"v": 2, "bd": 3, "shapes": 24, "jshapes": 12}}
 B = {}
-BOUNDS_TEXT = ("request streams of 40-110 bytes from 12 (quick) / 24 (thorough) shapes = framing {none, "
-               "Content-Length, chunked} x obs-fold x Expect: 100-continue x {keep-alive, close}, always "
-               "followed by a second pipelined request; symbolic header value of v bytes, body of bd bytes; "
-               "one symbolic junk byte replacing one of 16 structural characters; every 2-piece split of "
-               "every stream, and byte-at-a-time delivery")
+BOUNDS_TEXT = ("request streams of 44-136 bytes from 12 (quick) / 24 (thorough) shapes = framing {none, "
+               "Content-Length, chunked} x obs-fold x Expect: 100-continue (x Connection: close in thorough), always "
+               "followed by a second pipelined request.  seg_split: symbolic header value of v bytes (1 quick / 2 "
+               "thorough), symbolic body of bd bytes, every 2-piece split of every stream.  seg_junk: one symbolic "
+               "junk byte replacing one of the 12-19 structural characters of a shape (request-line bytes, "
+               "separators, CR / LF, header-name byte, colon, length digit, chunk-size digit, chunk CRLF, last-chunk, "
+               "first / last byte of the second request), the 4 cuts around the junk byte and byte-at-a-time "
+               "delivery (6 shapes quick / 12 thorough); seg_junk_all (thorough, 6 shapes): junk byte x every split")
 OUTSIDE = ["streams outside the shapes (header names come from a concrete menu; more than two requests; more "
-           "than one junk byte)",
-           "three or more deliveries other than byte-at-a-time",
+           "than one junk byte; a junk byte inserted rather than replacing a character)",
+           "three or more deliveries other than byte-at-a-time; in the quick tier the junk byte is combined "
+           "only with the 4 cuts next to it and with byte-wise delivery, not with every split",
            "the real limits MAX_LENGTH / totalHeadersSize = 16384 and maxHeaders = 500 (never reached here)",
            "timeouts (timeOut=None: no reactor) and HTTP/2"]
 ASSUMPTIONS = ["LBytes/LBuf reproduce bytes/bytearray semantics (vlib.lbytes.selftest on every run); the lifted "
@@ -361,7 +365,7 @@ def seg_junk(shape: int, jpos: int, j: str, d: int) -> bool:
 
 def seg_junk_all(shape: int, jpos: int, j: str, split: int) -> bool:
     """
-    pre: 0 <= shape < B['jshapes'] and 0 <= jpos < 19
+    pre: 0 <= shape < 6 and 0 <= jpos < 19
     pre: len(j) == 1 and ord(j) < 256
     pre: 0 <= split
     post: _
@@ -394,7 +398,7 @@ HARNESSES = [
                                      for s in range(BOUNDS[tier]["jshapes"]) for r in range(2)],
       timeout={"quick": 240, "thorough": 900}),
     H(seg_junk_all, shards=lambda tier: [("shape == %d" % s, "jpos %% 3 == %d" % r)
-                                         for s in range(BOUNDS[tier]["jshapes"]) for r in range(3)],
+                                         for s in range(6) for r in range(3)],
       timeout={"thorough": 1500}, tiers=("thorough",)),
 ]
 
